@@ -1139,15 +1139,19 @@ where
                     hs_noncmplt = Some(c);
                 }
             }
+            // A non-completed production's cost can still grow, so a rule's maximum is only final
+            // once none of its productions is non-completed (or it is known to be infinite).
             if let Some(high_cmplt) = hs_cmplt
-                && (hs_noncmplt.is_none() || hs_cmplt > hs_noncmplt)
+                && (hs_noncmplt.is_none() || high_cmplt == u16::MAX)
             {
                 debug_assert!(high_cmplt >= costs[i]);
                 costs[i] = high_cmplt;
                 done[i] = true;
             } else if let Some(hs_noncmplt) = hs_noncmplt {
-                debug_assert!(hs_noncmplt >= costs[i]);
-                costs[i] = hs_noncmplt;
+                // The rule's cost so far is that of its highest production, completed or not.
+                let hs = hs_cmplt.map_or(hs_noncmplt, |x| x.max(hs_noncmplt));
+                debug_assert!(hs >= costs[i]);
+                costs[i] = hs;
             }
         }
         if all_done {
